@@ -273,6 +273,65 @@ def record_synthesis(ctx):
                         f'to no statement)', f.file, f.line)
 
 
+def line_offsets(ctx):
+    """Positions inside a line are made absolute by adding the offset of
+    the line in the input.  That offset must advance by the length of the
+    line *as it stands in the input* plus the separator: the loop variable
+    that came out of split() must reach len() untouched."""
+    repo = ctx.repo
+    rule = 'C11.line-offset-advances-by-the-input-line'
+    ctx.rule(rule, 'in parse_string the element produced by '
+             'input.split(sep) is not reassigned inside the loop, and the '
+             'running offset is advanced by len(<that element>) + len(sep)')
+    f = repo.func('qbee.parser', 'parse_string')
+    loop = None
+    for n in ast.walk(f.node):
+        if isinstance(n, ast.For) and isinstance(n.iter, ast.Call) and \
+                isinstance(n.iter.func, ast.Attribute) and \
+                n.iter.func.attr == 'split' and \
+                isinstance(n.target, ast.Name):
+            loop = n
+    if loop is None:
+        raise AnalysisError('anchor vanished: line loop of parse_string')
+    var = loop.target.id
+    sep = const(loop.iter.args[0]) if loop.iter.args else None
+    construct = f'{f.file}:parse_string:line-loop'
+    reassigned = [x for x in ast.walk(loop) if isinstance(x, ast.Name) and
+                  x.id == var and isinstance(x.ctx, ast.Store) and
+                  x is not loop.target]
+    adv = []
+    for st in ast.walk(loop):
+        if isinstance(st, ast.AugAssign) and isinstance(st.op, ast.Add) and \
+                any(isinstance(c, ast.Call) and dotted(c.func) == 'len' and
+                    c.args and isinstance(c.args[0], ast.Name) and
+                    c.args[0].id == var for c in ast.walk(st.value)):
+            adv.append(st)
+    ctx.instance(rule, construct, sample={'reassigned': len(reassigned),
+                                          'advance': [unparse(a)
+                                                      for a in adv]})
+    if reassigned:
+        ctx.finding(rule, construct + ':reassigned',
+                    f'the line variable `{var}` is reassigned inside the '
+                    f'loop (line {reassigned[0].lineno}): the offset is then '
+                    f'advanced by the length of the modified text and every '
+                    f'later position drifts', f.file, reassigned[0].lineno)
+    ok = False
+    for a in adv:
+        v = a.value
+        if isinstance(v, ast.BinOp) and isinstance(v.op, ast.Add):
+            parts = [v.left, v.right]
+            has_len = any(isinstance(p, ast.Call) and
+                          dotted(p.func) == 'len' for p in parts)
+            k = [const(p) for p in parts if isinstance(p, ast.Constant)]
+            if has_len and isinstance(sep, str) and k == [len(sep)]:
+                ok = True
+    if not ok:
+        ctx.finding(rule, construct + ':advance',
+                    f'the running offset is not advanced by len({var}) + '
+                    f'{len(sep) if isinstance(sep, str) else "len(sep)"}',
+                    f.file, loop.lineno)
+
+
 def replacement_keeps_location(ctx):
     """The passes rewrite nodes (folded constants, `f = expr` inside a
     FUNCTION -> ReturnValueSetStmt) through Node.replace_child; the
@@ -336,6 +395,7 @@ def run(ctx):
     from .. import dbgrecords
     dbgrecords.check(ctx, 'C11')
     replacement_keeps_location(ctx)
+    line_offsets(ctx)
     if ctx.tier == 'thorough' or True:
         try:
             from .. import gensim
